@@ -696,6 +696,20 @@ def m_sync(ex, st, recv, args, kwargs, node):
     return ([(yes, const_sv(None))] if yes is not None else []), raises
 
 
+@method('dict', 'pop')
+def m_dict_pop(ex, st, recv, args, kwargs, node):
+    """d.pop(k): the value stored under k, which is removed; KeyError when absent (the one-argument form only)"""
+    if len(args) != 1 or kwargs or (recv.has_py and isinstance(recv.py, dict)):
+        raise Unsupported('dict.pop with a default / on a constant table (line %d)' % node.lineno)
+    a = va(recv.term)
+    k = args[0]
+    ty = Ty.strip_opt(recv.ty)
+    v = st.DV[a][k.term]
+    st.assume(Implies(st.DK[a][k.term], shape(st, v, ty.v)))
+    ns, rs = ex.del_item(st, recv, k)
+    return [(s, SV(v, ty.v)) for s in ns], rs
+
+
 @method('dict', 'update')
 def m_update(ex, st, recv, args, kwargs, node):
     raise Unsupported('dict.update (needs a contract-level model)')
